@@ -43,6 +43,21 @@ def outcome_of(fn):
         return None, ["raised", type(e).__name__]
 
 
+def _indent_encoder(m):
+    return json.dumps(m, indent=1, sort_keys=True).encode()
+
+
+def _plain_decoder(b):
+    return json.loads(bytes(b) if isinstance(b, memoryview) else b)
+
+
+def _codec_for(T, op):
+    """The codec an op uses: the default one, or one with the harness's own coders (recognisable by their indented output)."""
+    if op.get("coder") == "indent":
+        return typelib.codec(T, encoder=_indent_encoder, decoder=_plain_decoder)
+    return typelib.codec(T)
+
+
 def do_op(op, types, inputs):
     """Execute one library-facing operation; returns (result object, outcome list)."""
     T = types[op["t"]]
@@ -55,9 +70,9 @@ def do_op(op, types, inputs):
     if k == "unmarshal":
         return outcome_of(lambda: typelib.unmarshal(T, x))
     if k == "encode":
-        return outcome_of(lambda: typelib.codec(T).encode(x) if op.get("via") == "codec" else typelib.encode(x, t=T))
+        return outcome_of(lambda: _codec_for(T, op).encode(x) if op.get("via") == "codec" else typelib.encode(x, t=T))
     if k == "decode":
-        return outcome_of(lambda: typelib.codec(T).decode(x) if op.get("via") == "codec" else typelib.decode(T, x))
+        return outcome_of(lambda: _codec_for(T, op).decode(x) if op.get("via") == "codec" else typelib.decode(T, x))
     if k == "strref":
         caller = op["caller"]
         return outcome_of(lambda: caller(typelib.unmarshal, op["ref"], x))
@@ -454,7 +469,8 @@ def run_case(sh, i, plan):
                 elif kind == "unmarshal-value":
                     ops.append({"kind": "unmarshal", "t": ti, "x": add(copy.deepcopy(v))})
                 elif kind == "encode":
-                    ops.append({"kind": "encode", "t": ti, "x": add(copy.deepcopy(v)), "via": rng.choice(["codec", "api"])})
+                    ops.append({"kind": "encode", "t": ti, "x": add(copy.deepcopy(v)), "via": rng.choice(["codec", "api"]),
+                                "coder": rng.choice([None, None, "indent"])})  # (a second codec for the same type with coders of its own)
                 elif rec["wire"] is None and kind != "decode":
                     continue
                 elif kind == "unmarshal":
